@@ -109,7 +109,7 @@ pub fn gen_content(rng: &mut Rng, kind: CompKind) -> Content {
 }
 
 pub fn gen_alpha_pat(rng: &mut Rng) -> AlphaPat {
-    AlphaPat { kind: *rng.pick(&[0u8, 0, 1, 2, 3, 4, 5, 6, 7, 8, 9, 10, 11, 11]), seed: rng.next() }
+    AlphaPat { kind: *rng.pick(&[0u8, 0, 1, 2, 3, 4, 5, 6, 7, 8, 9, 10, 11, 11, 12, 12]), seed: rng.next() }
 }
 
 /// A valid crop box (inside the image, positive area), of the kinds the properties name.
